@@ -516,6 +516,20 @@ def splice_loops(body, loop_contracts, base_line, relfile, cname, cnt, allow_mis
         else:
             ln = base_line + body.count('\n', 0, he)
             ins = '\n#line 1 "contract:%s:loop%d"\n%s\n#line %d "%s"\n' % (cname, idx, text, ln, relfile)
+            if kind == 'for':
+                # R7b: goto-cc 6.11 silently drops a loop contract attached to a `for` without a condition (probed:
+                # `for (;;)` loses it, `while (1)` keeps it).  `for (;;)` -> `while (1)`; other condition-less forms
+                # are outside the subset.
+                hdr = body[ks:he]
+                parts = split_top(hdr[hdr.index('(') + 1:-1], ';')
+                if len(parts) == 3 and not parts[1].strip():
+                    if parts[0].strip() or parts[2].strip():
+                        raise ExtractionError('%s: annotated for-loop without a condition but with init/step' % cname)
+                    body = body[:ks] + 'while (1)' + ' ' * 0 + ins + body[he:]
+                    cnt.hit('R7b_for_ever')
+                    annotated += 1
+                    cnt.hit('loop_contract_spliced')
+                    continue
             body = body[:he] + ins + body[he:]
         annotated += 1
         cnt.hit('loop_contract_spliced')
